@@ -24,6 +24,7 @@ from props import c03 as J
 LEAN_MODULE = "Optyx.Props.C17"
 THEOREMS = [
     "Optyx.Props.Closures.closureTables_agree",
+    "Optyx.Props.Closures.sanitizeShape_agrees",
     "Optyx.Props.C17.hess_entries",
     "Optyx.Props.C17.compileHessian_general_entries",
     "Optyx.Props.C17.compileHessian_symm",
